@@ -323,7 +323,7 @@ def count_stored(path, key, sharding):
     n = 0
     if sharding:
         for f in sorted(os.listdir(sdir)):
-            if f.endswith(".shard"):
+            if f.endswith(".shard") and os.path.isfile(os.path.join(sdir, f)):
                 form, _ = parsers.parse_shard(os.path.join(sdir, f), f[:-len(".shard")],
                                               int(sharding.get("minishard_bits", 0)),
                                               sharding.get("minishard_index_encoding", "raw"),
@@ -380,7 +380,7 @@ def _read_chunking(acc, enc, key, cs, size, channels, dt, interner):
 
 
 def _empty_info():
-    return {"st": "none", "txt": "", "dtype": "-", "itemsize": 0, "channels": 0}
+    return {"st": "none", "txt": "", "dtype": "-", "itemsize": 0, "channels": 0, "type": "-"}
 
 
 def snap_dir(path, interner, url=None):
@@ -419,7 +419,8 @@ def snap_dir(path, interner, url=None):
             return out
         out["info"] = {"st": "ok",
                        "txt": json.dumps(info, sort_keys=True, separators=(",", ":")),
-                       "dtype": dt.name, "itemsize": int(dt.itemsize), "channels": channels}
+                       "dtype": dt.name, "itemsize": int(dt.itemsize), "channels": channels,
+                       "type": str(info.get("type", "-"))}
         for s, enc, (cs, size) in zip(scales, encoders, grids):
             key = s["key"]
             nbytes = int(np.prod(size)) * channels * dt.itemsize
@@ -430,6 +431,7 @@ def snap_dir(path, interner, url=None):
             nstored = count_stored(path, key, sharding)
             rec = {"key": key, "size": [int(v) for v in size], "chunk": [int(v) for v in cs],
                    "sharded": bool(sharding), "st": sts, "vox": vox, "nstored": nstored,
+                   "enc": str(s.get("encoding", "-")),
                    # chunks of THIS chunking found on disk by an independent walk
                    "ncell": nstored if sharding else count_cells(path, key, cs, size),
                    "alt": []}
@@ -506,7 +508,7 @@ def spec_reader_view(dst_path, src_snap, interner):
         files = []
         sdir = os.path.join(dst_path, key)
         for fn in (sorted(os.listdir(sdir)) if os.path.isdir(sdir) else []):
-            if not fn.endswith(".shard"):
+            if not fn.endswith(".shard") or not os.path.isfile(os.path.join(sdir, fn)):
                 continue
             form, _ = parsers.parse_shard(os.path.join(sdir, fn), fn[:-len(".shard")],
                                           int(sh.get("minishard_bits", 0)),
@@ -754,6 +756,9 @@ def build_args(c, env):
     explicit = env.get("explicit", False)
     sharg = ",".join(str(v) for v in env["shard_triple"]) if env.get("shard_triple") else "1,1,0"
     igs = ["--ignore-scaling"] if env.get("ignore_scaling") else []   # same option on every volume command
+    if env.get("input_range"):
+        lo, hi = env["input_range"]
+        igs = igs + ([] if lo is None else ["--input-min", str(lo)]) + ["--input-max", str(hi)]
     if op == "GenInfo":
         sh = ["--sharding", sharg] if c["sh"] in SHARDING_ARG else []
         return MODULES[op], (["--generate-info"] + sh + igs + [f for f in lay if f != "--flat"]
@@ -804,20 +809,53 @@ def apply_hand_info(c, env):
 
 
 def apply_obstruct(c, env):
-    """ENVIRONMENT (harness action): a regular file occupies the path of the LAST
-    scale's directory, so that neither chunk files nor shard files of that scale
-    can be created.  Refused (exit 1) without an info or when the path exists."""
+    """ENVIRONMENT (harness action): something else occupies a path the tools
+    have to create.  c['m']:
+      'last' / '-'  a regular file at the path of the LAST scale's directory
+      'first'       a DIRECTORY at the path of one chunk file (layout of the
+                    directory: flat / sub-directories, .gz or not) or, for a
+                    sharded info, of the first shard file of the FIRST scale
+      'info'        a directory named 'info' (no info may exist yet)
+    Refused (exit 1) when the precondition does not hold / the path exists."""
     d = env["dirs"][c["d"]]
+    what = c["m"] if c["m"] in ("first", "info") else "last"
+    if what == "info":
+        p = os.path.join(d, "info")
+        if os.path.lexists(p):
+            return 1
+        os.makedirs(p)
+        return 0
     try:
         with open(os.path.join(d, "info")) as f:
-            key = json.load(f)["scales"][-1]["key"]
+            info = json.load(f)
+        scale = info["scales"][0 if what == "first" else -1]
+        key = scale["key"]
     except (OSError, ValueError, KeyError, IndexError):
         return 1
-    p = os.path.join(d, key)
-    if os.path.lexists(p):
+    if what == "last":
+        p = os.path.join(d, key)
+        if os.path.lexists(p):
+            return 1
+        with open(p, "wb") as f:
+            f.write(b"not a directory\n")
+        return 0
+    if os.path.lexists(os.path.join(d, key)):
         return 1
-    with open(p, "wb") as f:
-        f.write(b"not a directory\n")
+    sharding = scale.get("sharding")
+    if sharding:
+        digits = (int(sharding.get("shard_bits", 0)) + 3) // 4
+        p = os.path.join(d, key, "0" * digits + ".shard")
+    else:
+        cs, size = scale["chunk_sizes"][0], scale["size"]
+        co = (0, min(cs[0], size[0]), 0, min(cs[1], size[1]), 0, min(cs[2], size[2]))
+        lay = LAYOUTS[env["lay"][c["d"]]]
+        if "--flat" in lay:
+            p = os.path.join(d, key, "%d-%d_%d-%d_%d-%d" % co)
+        else:
+            p = os.path.join(d, key, "%d-%d" % co[0:2], "%d-%d" % co[2:4], "%d-%d" % co[4:6])
+        if "--no-gzip" not in lay:
+            p += ".gz"
+    os.makedirs(p)
     return 0
 
 
@@ -844,8 +882,14 @@ def apply_edit(c, env):
     for s in info["scales"]:
         if os.path.isdir(os.path.join(d, s["key"])):
             return 1
-    for s in info["scales"]:
-        if c["sh"] in SHARDING_SPEC:
+    for j, s in enumerate(info["scales"]):
+        if c["sh"] in SHARDING_SPEC and env.get("shard_per_scale"):
+            # every scale gets ITS OWN sharding parameters (normal for datasets made by other
+            # tools): [[minishard, shard, preshift bits], data encoding, index encoding]
+            tr, denc, ienc = env["shard_per_scale"][j % len(env["shard_per_scale"])]
+            s["sharding"] = dict(SHARDING_SPEC[c["sh"]], minishard_bits=int(tr[0]), shard_bits=int(tr[1]),
+                                 preshift_bits=int(tr[2]), data_encoding=denc, minishard_index_encoding=ienc)
+        elif c["sh"] in SHARDING_SPEC:
             spec = dict(SHARDING_SPEC[c["sh"]])
             if env.get("shard_triple"):
                 mb, sb, pb = env["shard_triple"]
@@ -936,97 +980,193 @@ def apply_rechunk(c, env):
     return 0
 
 
+class Session:
+    """One program being run: scratch directories, volume, interned arrays and
+    the recorded case.  step(c) runs one command and records the event;
+    step(c, forced=(rc, stdout, stderr tail, argv)) records an event whose
+    command was executed elsewhere (in-process function-API conversions)."""
+
+    def __init__(self, workdir, prog, name):
+        self.prog = prog
+        self.base = base = os.path.join(workdir, name)
+        os.makedirs(base, exist_ok=True)
+        self.dirs = dirs = {"A": os.path.join(base, "A"), "B": os.path.join(base, "B")}
+        volpath = os.path.join(base, "vol.nii")
+        rng = np.random.default_rng(prog.get("seed", 0))
+        vol = make_volume(volpath, prog["vol"], rng)
+        self.it = it = Interner()
+        # the input volume in the order of a decoded scale (C, Z, Y, X)
+        v4 = vol if vol.ndim == 4 else vol[..., np.newaxis]
+        scl = prog["vol"].get("scl")
+        # the values a volume command is documented to convert: header scaling applied
+        # (slope * stored + inter) unless --ignore-scaling is given; with --input-max
+        # (and --input-min, default 0) the range [min, max] is mapped to the output range,
+        # which is [0, 1] for the float32 info such a conversion gets
+        vexp = v4 if (not scl or prog.get("ignore_scaling")) else v4.astype(np.float64) * scl[0] + scl[1]
+        rngopt = prog.get("input_range")
+        if rngopt:
+            lo = 0.0 if rngopt[0] is None else float(rngopt[0])
+            vexp = (vexp.astype(np.float64) - lo) / (float(rngopt[1]) - lo)
+        volidx = it.add(np.moveaxis(vexp, (0, 1, 2, 3), (3, 2, 1, 0)))
+        self.env = env = {
+            "vol": volpath, "dirs": dirs, "lay": prog["lay"], "explicit": prog.get("explicit", False),
+            "urls": {}, "shflag": {}, "tgt": prog.get("tgt"), "shard_enc": prog.get("shard_enc", "gzip"),
+            "ignore_scaling": bool(prog.get("ignore_scaling")), "input_range": rngopt,
+            "stacks": {}, "hand_info": hand_fullres_info(prog["vol"], v4 if vol.ndim == 4 else vol),
+            "shard_triple": prog.get("shard_triple"), "shard_per_scale": prog.get("shard_per_scale"),
+            "shard_index_enc": prog.get("shard_index_enc", prog.get("shard_enc", "gzip"))}
+        self.servers = []
+        self.case = case = {"cfg": {"perfect": bool(prog["vol"].get("perfect", True)),
+                                    "nall": int(prog["vol"].get("nall", 3))},
+                            "vol": volidx, "svol": {"-": 0}, "init": {}, "events": [], "_log": []}
+        # slice stacks: one per orientation code used, built so that its documented
+        # re-orientation is the volume; the EXPECTED array handed to TLC is the
+        # harness' own re-orientation of the stack that was written
+        smode = "rgb" if prog["vol"].get("rgb") else "grey"
+        for c in prog["cmds"]:
+            if c["op"] == "Slices" and c["code"] not in env["stacks"]:
+                if vol.dtype not in (np.uint8, np.uint16):
+                    raise tlc.MachineryError("slice stacks need uint8/uint16 volumes, not %s" % vol.dtype)
+                st = stack_for(vol, c["code"])
+                env["stacks"][c["code"]] = write_stack(base, "stack_" + c["code"], st, smode,
+                                                       prog.get("slice_format", "png"))
+                back = reorient_to_ras(st, c["code"])
+                b4 = back if back.ndim == 4 else back[..., np.newaxis]
+                case["svol"][c["code"]] = it.add(np.moveaxis(b4, (0, 1, 2, 3), (3, 2, 1, 0)))
+        for dn in prog.get("http", []):
+            srv = LoopbackServer(dirs[dn])
+            env["urls"][dn] = srv.__enter__()
+            self.servers.append(srv)
+        case["init"] = {k: snap_dir(p, it) for k, p in dirs.items()}
+
+    def step(self, c, forced=None):
+        env, case, dirs, it, prog = self.env, self.case, self.dirs, self.it, self.prog
+        report = _no_report()
+        if forced is not None:
+            rc, out, tail, args = forced
+        elif c["op"] == "Edit":
+            rc, out, tail, args = apply_edit(c, env), "", "", ["<edit info>"]
+        elif c["op"] == "HandInfo":
+            rc, out, tail, args = apply_hand_info(c, env), "", "", ["<write info_fullres.json>"]
+        elif c["op"] == "Obstruct":
+            rc, out, tail, args = apply_obstruct(c, env), "", "", ["<obstruct %s>" % c["m"]]
+        elif c["op"] == "Rechunk":
+            rc, out, tail, args = apply_rechunk(c, env), "", "", ["<re-tile dataset %s>" % c["m"]]
+        else:
+            module, args = build_args(c, env)
+            rc, out, tail, args = run_tool(module, args, self.base)
+            if c["op"] == "Stats" and rc == 0:
+                report = parse_stats(out)
+            if c["op"] == "GenInfo" and c["sh"] in SHARDING_ARG and prog.get("docs_shflag", True):
+                env["shflag"][c["d"]] = True
+        snap_before = case["events"][-1]["snap"] if case["events"] else case["init"]
+        ev = {"cmd": {f: c[f] for f in FIELDS}, "exit": rc,
+              "snap": {k: snap_dir(p, it) for k, p in dirs.items()},
+              "report": report, "remote": 1 if (c["op"] == "Convert" and c["src"] in env["urls"]) else 0}
+        ev["fmt"] = (spec_reader_view(dirs[c["d"]], snap_before[c["src"]], it)
+                     if c["op"] == "Convert" and rc == 0 and c["src"] in dirs else [])
+        case["events"].append(ev)
+        case["_log"].append({"argv": [a.replace(self.base, ".") for a in args],
+                             "exit": rc, "stderr": tail,
+                             "stdout": out[-600:] if c["op"] == "Stats" else ""})
+
+    def close(self):
+        for srv in self.servers:
+            srv.__exit__()
+        shutil.rmtree(self.base, ignore_errors=True)
+        self.case["arrays"] = self.it.arrays
+        return self.case
+
+
 def run_program(workdir, prog, name="p"):
     """prog: {"vol": volume spec, "cmds": [command dicts], "lay": {"A":..,"B":..},
     "explicit": bool, "seed": int, optional "http": [dir names served over
-    loopback when used as a Convert source], "tgt", "shard_enc"}.
+    loopback when used as a Convert source], "tgt", "shard_enc", "shard_index_enc",
+    "shard_triple" [minishard, shard, preshift bits], "shard_per_scale",
+    "ignore_scaling", "input_range" [min or None, max]}.
     Returns the recorded case (dict) for Trace_Pipeline."""
-    base = os.path.join(workdir, name)
-    os.makedirs(base, exist_ok=True)
-    dirs = {"A": os.path.join(base, "A"), "B": os.path.join(base, "B")}
-    volpath = os.path.join(base, "vol.nii")
-    rng = np.random.default_rng(prog.get("seed", 0))
-    vol = make_volume(volpath, prog["vol"], rng)
-    it = Interner()
-    # the input volume in the order of a decoded scale (C, Z, Y, X)
-    v4 = vol if vol.ndim == 4 else vol[..., np.newaxis]
-    scl = prog["vol"].get("scl")
-    # the values a volume command is documented to convert: header scaling applied
-    # (slope * stored + inter) unless --ignore-scaling is given
-    vexp = v4 if (not scl or prog.get("ignore_scaling")) else v4.astype(np.float64) * scl[0] + scl[1]
-    volidx = it.add(np.moveaxis(vexp, (0, 1, 2, 3), (3, 2, 1, 0)))
-    env = {"vol": volpath, "dirs": dirs, "lay": prog["lay"], "explicit": prog.get("explicit", False),
-           "urls": {}, "shflag": {}, "tgt": prog.get("tgt"), "shard_enc": prog.get("shard_enc", "gzip"),
-           "ignore_scaling": bool(prog.get("ignore_scaling")),
-           "stacks": {}, "hand_info": hand_fullres_info(prog["vol"], v4 if vol.ndim == 4 else vol),
-           "shard_triple": prog.get("shard_triple"),
-           "shard_index_enc": prog.get("shard_index_enc", prog.get("shard_enc", "gzip"))}
-    servers = []
-    case = {"cfg": {"perfect": bool(prog["vol"].get("perfect", True)),
-                    "nall": int(prog["vol"].get("nall", 3))},
-            "vol": volidx, "svol": {"-": 0}, "init": {}, "events": []}
-    # slice stacks: one per orientation code used, built so that its documented
-    # re-orientation is the volume; the EXPECTED array handed to TLC is the
-    # harness' own re-orientation of the stack that was written
-    smode = "rgb" if prog["vol"].get("rgb") else "grey"
-    for c in prog["cmds"]:
-        if c["op"] == "Slices" and c["code"] not in env["stacks"]:
-            if vol.dtype not in (np.uint8, np.uint16):
-                raise tlc.MachineryError("slice stacks need uint8/uint16 volumes, not %s" % vol.dtype)
-            st = stack_for(vol, c["code"])
-            env["stacks"][c["code"]] = write_stack(base, "stack_" + c["code"], st, smode,
-                                                   prog.get("slice_format", "png"))
-            back = reorient_to_ras(st, c["code"])
-            b4 = back if back.ndim == 4 else back[..., np.newaxis]
-            case["svol"][c["code"]] = it.add(np.moveaxis(b4, (0, 1, 2, 3), (3, 2, 1, 0)))
+    s = None
     try:
-        for dn in prog.get("http", []):
-            s = LoopbackServer(dirs[dn])
-            env["urls"][dn] = s.__enter__()
-            servers.append(s)
-        case["init"] = {k: snap_dir(p, it) for k, p in dirs.items()}
+        s = Session(workdir, prog, name)
         for c in prog["cmds"]:
-            report = _no_report()
-            if c["op"] == "Edit":
-                rc, out, tail, args = apply_edit(c, env), "", "", ["<edit info>"]
-            elif c["op"] == "HandInfo":
-                rc, out, tail, args = apply_hand_info(c, env), "", "", ["<write info_fullres.json>"]
-            elif c["op"] == "Obstruct":
-                rc, out, tail, args = apply_obstruct(c, env), "", "", ["<regular file at the last scale's path>"]
-            elif c["op"] == "Rechunk":
-                rc, out, tail, args = apply_rechunk(c, env), "", "", ["<re-tile dataset %s>" % c["m"]]
-            else:
-                module, args = build_args(c, env)
-                rc, out, tail, args = run_tool(module, args, base)
-                if c["op"] == "Stats" and rc == 0:
-                    report = parse_stats(out)
-                if c["op"] == "GenInfo" and c["sh"] in SHARDING_ARG and prog.get("docs_shflag", True):
-                    env["shflag"][c["d"]] = True
-            snap_before = case["events"][-1]["snap"] if case["events"] else case["init"]
-            ev = {"cmd": {f: c[f] for f in FIELDS}, "exit": rc,
-                  "snap": {k: snap_dir(p, it) for k, p in dirs.items()},
-                  "report": report, "remote": 1 if (c["op"] == "Convert" and c["src"] in env["urls"]) else 0}
-            ev["fmt"] = (spec_reader_view(dirs[c["d"]], snap_before[c["src"]], it)
-                         if c["op"] == "Convert" and rc == 0 and c["src"] in dirs else [])
-            case["events"].append(ev)
-            case.setdefault("_log", []).append({"argv": [a.replace(base, ".") for a in args],
-                                                "exit": rc, "stderr": tail,
-                                                "stdout": out[-600:] if c["op"] == "Stats" else ""})
+            s.step(c)
     finally:
-        for s in servers:
-            s.__exit__()
-        shutil.rmtree(base, ignore_errors=True)
-    case["arrays"] = it.arrays
+        case = s.close() if s is not None else None
     return case
 
 
+_INPROC = r"""
+import json, sys, traceback
+from neuroglancer_scripts.scripts import convert_chunks as cc
+out = []
+for src, dst in json.loads(sys.argv[1]):
+    try:
+        r = cc.convert_chunks(src, dst, copy_info=True)      # default options, as an API user calls it
+        out.append([int(r or 0), ""])
+    except BaseException as exc:
+        out.append([1, "".join(traceback.format_exception_only(type(exc), exc))[-400:]])
+print("INPROC" + json.dumps(out))
+"""
+
+
+def run_linked(workdir, progs, name="g"):
+    """Programs whose LAST command (Convert --copy-info) is executed through the
+    function API scripts.convert_chunks.convert_chunks(src, dst, copy_info=True)
+    in ONE helper interpreter, in the order of `progs`; everything before runs
+    as usual.  Each program gets its own trace."""
+    sessions = []
+    try:
+        for k, p in enumerate(progs):
+            last = p["cmds"][-1]
+            if last["op"] != "Convert" or last["copy"] != "copy":
+                raise tlc.MachineryError("linked programs must end with Convert --copy-info")
+            s = Session(workdir, p, "%s_%d" % (name, k))
+            sessions.append(s)
+            for c in p["cmds"][:-1]:
+                s.step(c)
+        pairs = [[s.dirs[s.prog["cmds"][-1]["src"]], s.dirs[s.prog["cmds"][-1]["d"]]] for s in sessions]
+        tmpdir = os.path.join(sessions[0].base, "tmp")
+        os.makedirs(tmpdir, exist_ok=True)
+        p = subprocess.run([sys.executable, "-c", _INPROC, json.dumps(pairs)], env=sub_env(tmpdir),
+                           capture_output=True, timeout=300)
+        text = p.stdout.decode("utf-8", "replace")
+        i = text.rfind("INPROC")
+        if i < 0:
+            raise tlc.MachineryError("in-process conversion helper failed: %s"
+                                     % p.stderr.decode("utf-8", "replace")[-600:])
+        res = json.loads(text[i + len("INPROC"):].strip().splitlines()[0])
+        for s, (rc, msg), pr in zip(sessions, res, pairs):
+            s.step(s.prog["cmds"][-1],
+                   forced=(rc, "", msg, ["<in-process convert_chunks(%s, %s, copy_info=True)>" % tuple(pr)]))
+    finally:
+        cases = [s.close() for s in sessions]
+    return cases
+
+
 def run_programs(workdir, progs, workers=12):
-    """Run programs in parallel (process start-up dominates).  Order kept."""
+    """Run programs in parallel (process start-up dominates).  Order kept.
+    Programs carrying the same "link" value run as one linked group (see
+    run_linked), in list order."""
     out = [None] * len(progs)
+    groups = {}
+    for k, p in enumerate(progs):
+        if p.get("link") is not None:
+            groups.setdefault(p["link"], []).append(k)
     with concurrent.futures.ThreadPoolExecutor(max_workers=workers) as ex:
-        futs = {ex.submit(run_program, workdir, p, "p%04d" % k): k for k, p in enumerate(progs)}
+        futs = {}
+        for k, p in enumerate(progs):
+            if p.get("link") is None:
+                futs[ex.submit(run_program, workdir, p, "p%04d" % k)] = [k]
+        for g, ks in groups.items():
+            futs[ex.submit(run_linked, workdir, [progs[k] for k in ks], "g%04d" % ks[0])] = ks
         for f in concurrent.futures.as_completed(futs):
-            out[futs[f]] = f.result()
+            ks = futs[f]
+            r = f.result()
+            if len(ks) == 1 and progs[ks[0]].get("link") is None:
+                out[ks[0]] = r
+            else:
+                for k, c in zip(ks, r):
+                    out[k] = c
     return out
 
 
